@@ -251,6 +251,8 @@ def _run_sqlite(ref, spec, workdir):
                 explained = M.ddl_wellformed(M.parse_ddl(db.schema.generate_create_script(), '"'), 'sqlite')
             except M.DDLError as pe:
                 explained = [('malformed:parse', 'the SQLite DDL script cannot be parsed: %s' % pe)]
+            if not any(k in str(e).lower() for k in ('duplicate', 'already')):
+                explained = []       # only a backend complaint about clashing names is explained by a name clash in the script
             for tag, message in explained:
                 vio.append((tag, '%s; %s' % (message, backend)))
             if not explained:
